@@ -81,6 +81,54 @@ def run_specs(prop, specs, tag, coqeval=0):
     return res
 
 
+# Quantities the property itself fixes (C03: the score of a Lennard-Jones state is minus the lattice energy per molecule;
+# C13: the energy of a pair is the shifted, truncated 12-6 law).  For these the model is more than a mirror of the code: it
+# is proved to evaluate exactly that expression (C03_lj_score_formula, C13's law theorems), so an implementation whose
+# value is FAR from the model's on a state - far beyond what rounding or a re-association of the sums can explain -
+# returns the wrong value for that state: a concrete failing input.  Differences in the last digits stay what they
+# are, a broken correspondence.
+VALUE_QUANTITIES = {
+    "C03": ["LJ score"],
+    "C13": ["energy(a,b)", "energy(b,a)", "molecule energy(a,b)", "molecule energy(b,a)"],
+}
+
+
+def promote_value_mismatches(prop, mismatches, min_cases):
+    names = VALUE_QUANTITIES.get(prop)
+    if not names:
+        return []
+    hits = []
+    for m in mismatches:
+        for nm in names:
+            mm = re.search(re.escape(nm) + r": model (\S+) \([^)]*\) impl (\S+) \(", m.get("what", ""))
+            if not mm:
+                continue
+            try:
+                a, b = float.fromhex(mm.group(1)), float.fromhex(mm.group(2))
+            except ValueError:
+                continue
+            if a != a or b != b or abs(a) == float("inf") or abs(b) == float("inf"):
+                continue
+            scale = max(abs(a), abs(b))
+            if scale >= 1e6 or scale == 0:
+                continue          # (huge energies of nearly coincident particles are ill-conditioned)
+            rel = abs(a - b) / scale
+            if rel > 1e-6:
+                hits.append((m["case"], nm, a, b, rel))
+            break
+    cases = sorted(set(h[0] for h in hits))
+    if len(cases) < min_cases:
+        return []
+    out = []
+    for case, nm, a, b, rel in hits[:6]:
+        what = ("%s is %r; the expression the property names - %s, as the proved model evaluates it on this input - is %r "
+                "(relative difference %.1e; %d cases differ by more than 1e-6)"
+                % (nm, b, "minus the lattice energy per molecule" if prop == "C03" else "the shifted, truncated 12-6 pair energy",
+                   a, rel, len(cases)))
+        out.append(dict(engine="geom", properties=[prop], case=case, what=what))
+    return out
+
+
 def corpus():
     p = os.path.join(ROOT, "corpus", "geom.txt")
     return [l.strip() for l in open(p) if l.startswith("geom ")] if os.path.exists(p) else []
@@ -107,6 +155,8 @@ def run(prop, conf, params, tier, seed, broken_gate):
             r[k] += r2[k]
         for k in ("bit", "tol", "band"):
             r[k] += r2[k]
+    if not [f for f in relevant if "class=" not in f["what"]]:
+        relevant += promote_value_mismatches(prop, r["mismatches"], 3)
     dist = dict(groups={}, kinds={}, shapes={}, scored=0, not_scored=0, pairs=0, clamped_sites=0, built_false=0)
     nontriv = set()
     for spec, meta in r["metas"]:
@@ -147,5 +197,7 @@ def run(prop, conf, params, tier, seed, broken_gate):
 
 def replay(prop, conf, case):
     r = run_specs(prop, [case], "replay")
-    return dict(evaluations=len(r["metas"]), findings=[f for f in r["findings"] if prop in f["properties"]],
-                mismatches=r["mismatches"])
+    fs = [f for f in r["findings"] if prop in f["properties"]]
+    if not fs:
+        fs = promote_value_mismatches(prop, r["mismatches"], 1)
+    return dict(evaluations=len(r["metas"]), findings=fs, mismatches=r["mismatches"])
